@@ -19,6 +19,9 @@ package weights
 // Execute (the day-end callback): on a period end day every commodity with a value contributes its
 // share value/total under its (mapped) classification path; the universe - the classification of every
 // commodity - is only read: the same commodity is classified the same way on every reporting date.
+// The commodities are visited in the order of dict.SortedKeys(V1, commodity.Compare) - a fixed order, because
+// float64 sums depend on the order of their terms (the reals of this model do not: see the bounded stand-in
+// weights-order of C06); coms holds keys of V1 only (contract of dict.SortedKeys).
 //@ func (Query).Execute$1
 //@   requires d != nil && d.Performance != nil && r != nil && wfMapping(q.Mapping) && days != nil && (forall c *commodity.Commodity :: {key(d.Performance.V1, c)} (c in d.Performance.V1) ==> c != nil)
 //@   modifies fields(r.weights), r.dates[*]
@@ -26,9 +29,11 @@ package weights
 //@   ghost total real = 0
 //@   ensures result == nil
 //@   ensures [C20] @skipped: !(d in days) ==> tlen() == old(tlen())
-//@   loop 1 invariant tlen() == old(tlen())
-//@   loop 2 invariant tlen() >= old(tlen())
-//@   loop 2 invariant [C20] @share: forall i int :: {targ("Add", 2, i)} entry(tlen()) <= i && i < tlen() ==> (exists c *commodity.Commodity :: (c in d.Performance.V1) && targ("Add", 2, i) == d.Performance.V1[c] / total && targ("Add", 1, i) == d.Date)
+//@   loop 1 invariant tlen() == old(tlen()) && fresh(coms)
+//@   loop 1 invariant forall k int :: {coms[k]} 0 <= k && k < len(coms) ==> (coms[k] in d.Performance.V1)
+//@   loop 2 invariant tlen() >= old(tlen()) && fresh(coms)
+//@   loop 2 invariant forall k int :: {coms[k]} 0 <= k && k < len(coms) ==> (coms[k] in d.Performance.V1)
+//@   loop 2 invariant [C20] @share: forall i int :: {targ("Add", 2, i)} entry(tlen()) <= i && i < tlen() ==> (exists k int :: 0 <= k && k < $i && targ("Add", 2, i) == d.Performance.V1[coms[k]] / total) && targ("Add", 1, i) == d.Date
 //
 // Execute (constructor): the period end days are added to the builder (so that they exist when the
 // journal is built afterwards); nothing else is touched.
@@ -40,7 +45,8 @@ package weights
 //
 // PropagateWeights (the visitor): a node's weight at a date grows by the weights of its children at
 // that date - every child counts, whether or not the node is a leaf of the universe; dates that no child
-// has keep their weight; the children's own weights are not changed.
+// has keep their weight; the children's own weights are not changed. The children are visited in the order of
+// their segments (dict.SortedValues: exactly the values of n.Children, each of them).
 //@ def childOK(n *Node) bool := n != nil && (forall k string :: {key(n.Children, k)} (k in n.Children) ==> n.Children[k] != nil && n.Children[k] != n
 //@     && (n.Children[k].Value.Weights == nil || n.Children[k].Value.Weights != n.Value.Weights) && live(n.Children[k].Value.Weights))
 //@ func (*Report).PropagateWeights$1
@@ -49,9 +55,15 @@ package weights
 //@   ensures [C20] @nonnil: n.Value.Weights != nil && (old(n.Value.Weights) != nil ==> n.Value.Weights == old(n.Value.Weights))
 //@   ensures [C20] @covers: forall k string, dt time.Time :: {key(n.Children, k), key(n.Value.Weights, dt)} (k in n.Children) && (dt in n.Children[k].Value.Weights) ==> (dt in n.Value.Weights)
 //@   loop 1 invariant n.Value.Weights != nil && childOK(n) && (old(n.Value.Weights) != nil ==> n.Value.Weights == old(n.Value.Weights)) && dom(n.Children) == old(dom(n.Children)) && vals(n.Children) == old(vals(n.Children))
-//@   loop 1 invariant forall k string, dt time.Time :: {key(n.Children, k), key(n.Value.Weights, dt)} $seen[k] && (k in n.Children) && (dt in n.Children[k].Value.Weights) ==> (dt in n.Value.Weights)
+//@   loop 1 invariant fresh($range) && 0 <= $i && $i <= len($range)
+//@   loop 1 invariant forall j int :: {$range[j]} 0 <= j && j < len($range) ==> (exists k string :: (k in n.Children) && n.Children[k] == $range[j])
+//@   loop 1 invariant forall k string :: {key(n.Children, k)} (k in n.Children) ==> (exists j int :: 0 <= j && j < len($range) && $range[j] == n.Children[k])
+//@   loop 1 invariant forall j int, dt time.Time :: {$range[j], key(n.Value.Weights, dt)} 0 <= j && j < $i && (dt in $range[j].Value.Weights) ==> (dt in n.Value.Weights)
 //@   loop 2 invariant n.Value.Weights != nil && childOK(n) && (old(n.Value.Weights) != nil ==> n.Value.Weights == old(n.Value.Weights)) && dom(n.Children) == old(dom(n.Children)) && vals(n.Children) == old(vals(n.Children))
-//@   loop 2 invariant ch != nil && ch != n && (exists k string :: (k in n.Children) && n.Children[k] == ch) && ch.Value.Weights != n.Value.Weights
+//@   loop 2 invariant fresh($range1) && 0 <= $i1 && $i1 < len($range1) && ch == $range1[$i1]
+//@   loop 2 invariant forall j int :: {$range1[j]} 0 <= j && j < len($range1) ==> (exists k string :: (k in n.Children) && n.Children[k] == $range1[j])
+//@   loop 2 invariant forall k string :: {key(n.Children, k)} (k in n.Children) ==> (exists j int :: 0 <= j && j < len($range1) && $range1[j] == n.Children[k])
+//@   loop 2 invariant ch != nil && ch != n && ch.Value.Weights != n.Value.Weights
 //@   loop 2 invariant forall dt time.Time :: {key(n.Value.Weights, dt)} entry(dt in n.Value.Weights) ==> (dt in n.Value.Weights)
 //@   loop 2 invariant forall dt time.Time :: {$seen[dt]} $seen[dt] ==> (dt in n.Value.Weights) && (dt in ch.Value.Weights)
-//@   loop 2 invariant forall k string, dt time.Time :: {key(n.Children, k), key(n.Value.Weights, dt)} $seen1[k] && n.Children[k] != ch && (k in n.Children) && (dt in n.Children[k].Value.Weights) ==> (dt in n.Value.Weights)
+//@   loop 2 invariant forall j int, dt time.Time :: {$range1[j], key(n.Value.Weights, dt)} 0 <= j && j < $i1 && (dt in $range1[j].Value.Weights) ==> (dt in n.Value.Weights)
